@@ -49,9 +49,9 @@ class PrimaryHeaderBase:
     def _pack_common_header(self, truncated: bool = False) -> bytearray:
         packet = bytearray()
         if (
-            (self.scid > pow(2, 16) - 1)
-            or (self.vcid > pow(2, 6) - 1)
-            or (self.map_id > pow(2, 4) - 1)
+            (self.scid < 0 or self.scid > pow(2, 16) - 1)
+            or (self.vcid < 0 or self.vcid > pow(2, 6) - 1)
+            or (self.map_id < 0 or self.map_id > pow(2, 4) - 1)
         ):
             raise ValueError
         packet.append((USLP_VERSION_NUMBER << 4) | (self.scid >> 12) & 0b1111)
